@@ -123,10 +123,11 @@ DOCS = [
     {"a": 1, "s": "ab", "l": [1, 2, 3], "e": [], "m": {"k": 1, "j": "x"}, "em": {}, "n": None, "b": True, "f": 1.5,
      "lm": [{"k": 1, "t": "x", "sub": [{"x": 1, "y": 1}]}, {"k": 5, "sub": [{"x": 2, "y": 1}]}, {"j": 2, "sub": []}], "ll": [[1, 2], [3]], "ls": ["a", "ab"]},
     {"a": "1", "s": "", "l": [], "e": [0], "m": {}, "lm": [], "b": False, "f": 2, "n": 0},
-    {"a": [1], "l": [3, 2, 1], "m": {"k": [1, 2]}, "lm": [{"k": [1, 5]}, {"k": "5"}], "s": "abc"},
+    {"a": [1], "l": [3, 2, 1], "m": {"k": [1, 2]}, "lm": [{"k": [1, 5]}, {"k": "5"}], "s": "abc", "k": 5, "x": 1},
 ]
 QUERIES = ['a', 's', 'l', 'l[*]', 'l[0]', 'l[7]', 'e', 'e[*]', 'm', 'm.k', 'm.*', 'm.zz', 'zz', 'zz.k', 'lm[*].k', 'lm[ k == 5 ].k',
            'lm[ k == 77 ]', 'lm[ k exists ].t', 'ls[*]', 'll[*]', 'll', 'n', 'b', 'f', 'this', 'em', 'em.*', 'lm.*.k', 'm[ this == 1 ]',
+           'lm[*][ k == 5 ].t', 'lm[*][ k exists ]', 'l[*][ this == 1 ]', 'm[*][ k == 1 ]', 'lm[*].sub[*][ x == 1 ].y', 'm.*[ this == 1 ]',
            'lm[ sub[ x == 99 ].y == 1 ].k', 'lm[ sub[ x == 1 ].y == 1 ].k', 'lm[ sub[ x == 99 ] empty ].k', 'lm[ zz == 1 or k == 5 ].k']
 LITERALS = ['1', '5', '"ab"', '"a"', '""', '1.5', 'true', 'null', '[1, 2, 3]', '[1]', '[]', '["a", "ab"]', '[[1, 2], [3]]', '{k: 1, j: "x"}',
             'r[1,3]', 'r(1,3)', '/^a/', '[5, 1]', '[1, 2]', '2']
